@@ -342,8 +342,17 @@ func TestSelectorStrings(t *testing.T) { strProp.Check(t) }
 
 // TestSelectorEnumeration: every string up to maxLen over the alphabet.
 func TestSelectorEnumeration(t *testing.T) {
-	alpha := []string{".", "[", "]", `"`, "?", `\`, ":", "a", "0", "-", "é"}
-	maxLen := h.N(5, 7)
+	enumerate(t, []string{".", "[", "]", `"`, "?", `\`, ":", "a", "0", "-", "é"}, h.N(5, 7), "")
+}
+
+// TestSelectorEnumerationNumbers: the same over an alphabet rich in digits and signs (spellings of indexes
+// and slice bounds: leading zeros, "-0", digits that mean something else in another base); every string
+// starts with '.', the only way to be accepted.
+func TestSelectorEnumerationNumbers(t *testing.T) {
+	enumerate(t, []string{"[", "]", "?", ":", "-", "0", "1", "8", "a", "."}, h.N(6, 8), ".")
+}
+
+func enumerate(t *testing.T, alpha []string, maxLen int, start string) {
 	k, nshards := h.Shard()
 	total, accepted, nt := 0, 0, 0
 	var rec func(prefix string, depth int, idx int)
@@ -393,13 +402,17 @@ func TestSelectorEnumeration(t *testing.T) {
 		}
 	}
 	// every accepted selector starts with "."; enumerating the rest is pointless but cheap
-	rec("", 0, 0)
+	if start != "" {
+		rec(start, 1, 0)
+	} else {
+		rec("", 0, 0)
+	}
 	P.EvalN(total)
 	P.AddDistinct(nt)
 	P.SetExtra("enumerated_strings", total)
 	P.SetExtra("enumerated_accepted", accepted)
 	P.SetExtra("enumerated_max_len", maxLen)
-	P.Sample(map[string]any{"enumeration": "all strings over {. [ ] \" ? \\ : a 0 - é}", "max_len": maxLen, "strings": total, "accepted": accepted})
+	P.Sample(map[string]any{"enumeration": "all strings over {" + strings.Join(alpha, " ") + "}", "prefix": start, "max_len": maxLen, "strings": total, "accepted": accepted})
 	if nshards == 1 {
 		P.SetExhaustive()
 	}
